@@ -163,7 +163,16 @@ func (P) Monitor(c *hx.CaseRun) []hx.Failure {
 	var names []string
 	exists := map[int]bool{}
 	iters := map[int][][2][]byte{} // step-wise iterators of the reference: the content as of creation
-	var lastWritten []bop // the ops of the batch written last (diagnosis of aliased keys)
+	type itMeta struct {
+		s, e  []byte
+		rev   bool
+		under bool
+	}
+	itm := map[int]itMeta{}
+	recorded := map[int]int{}    // ops recorded in a batch since bnew/breset (ValueSize laws)
+	valBytes := map[int]int{}    // bytes of the values queued by Set since bnew/breset
+	lastSize := map[string]int{} // backend/id -> last ValueSize seen while recording
+	var lastWritten []bop        // the ops of the batch written last (diagnosis of aliased keys)
 	r := &refState{}
 	sharded := false
 	suffix := ""
@@ -197,6 +206,27 @@ func (P) Monitor(c *hx.CaseRun) []hx.Failure {
 			continue
 		}
 		// ---- leaf functions against their specification
+		if name == "childprobe" {
+			kind, _ := hx.Arg(toks, "kind")
+			b, _ := hx.Arg(toks, "b")
+			parts := strings.Split(ans, ",")
+			onDisk := b != "mem"
+			switch kind {
+			case "double-close-reopen": // a second Close is harmless and the content is still there after reopening
+				if onDisk && !(len(parts) == 4 && parts[2] == "kv=01:01" && parts[3] == "exit=ok") {
+					fail("durable_reopen", b+":double-close-reopen", "libs/db", fmt.Sprintf("`%s` -> %s, expected ok,ok,kv=01:01,exit=ok", op, ans))
+				}
+			case "reshard": // back on the original shard count everything is there again
+				if onDisk && !strings.HasSuffix(ans, "kv=01:01,02:02,03:03,04:04,exit=ok") {
+					fail("durable_reopen", b+":reshard-roundtrip", "libs/db/common.go:dbIndex", fmt.Sprintf("`%s` -> %s", op, clipS(ans, 200)))
+				}
+			case "corrupt-open": // an overwritten store either fails to open or still has its content: never a silent loss
+				if onDisk && len(parts) >= 3 && parts[1] == "ok" && parts[2] != "v=01" && (b != "ldb" || findingLdbSilentRecover) {
+					fail("durable_reopen", "open-after-corruption-loses-data-silently", "libs/db/go_level_db.go:NewGoLevelDB", fmt.Sprintf("`%s` -> %s: the store opened without an error and the committed key is gone", op, ans))
+				}
+			}
+			continue
+		}
 		if name == "crashprobe" {
 			mode, _ := hx.Arg(toks, "mode")
 			want := map[string]string{"reset-write": "survived kv=02:02", "write-reset-write": "survived kv=01:01,02:02", "write-write": "survived kv=02:02"}[mode]
@@ -324,7 +354,115 @@ func (P) Monitor(c *hx.CaseRun) []hx.Failure {
 		case "iopen":
 			rv, _ := hx.Arg(toks, "rev")
 			iters[id()] = r.iter(arg("s"), arg("e"), rv == "1", under)
+			itm[id()] = itMeta{arg("s"), arg("e"), rv == "1", under}
 			want = "ok"
+		case "iseek":
+			// ground truth (what all four adapters agree on): Seek(k) restarts the iterator at k, same end, same direction
+			m, ok := itm[id()]
+			if !ok {
+				want = "noiter"
+				break
+			}
+			m.s = arg("k")
+			itm[id()] = m
+			iters[id()] = r.iter(m.s, m.e, m.rev, m.under)
+			want = fmt.Sprint(len(iters[id()]) > 0)
+		case "idomain":
+			if m, ok := itm[id()]; ok {
+				want = "s=" + showB(m.s) + " e=" + showB(m.e)
+			} else {
+				want = "noiter"
+			}
+		case "ivalid":
+			if it, ok := iters[id()]; ok {
+				want = fmt.Sprint(len(it) > 0)
+			} else {
+				want = "noiter"
+			}
+		case "ikey", "ivalue":
+			it, ok := iters[id()]
+			switch {
+			case !ok:
+				want = "noiter"
+			case len(it) == 0:
+				want = "panic" // "If Valid returns false, this method will panic"
+			case name == "ikey":
+				want = hx.Hex(it[0][0])
+			default:
+				want = hx.Hex(it[0][1])
+			}
+		case "inext":
+			it, ok := iters[id()]
+			switch {
+			case !ok:
+				want = "noiter"
+			case len(it) == 0:
+				continue // the interface says both "will panic" and "no panic when returned to false": adapter-specific, model only
+			default:
+				iters[id()] = it[1:]
+				want = "ok"
+			}
+		case "bigbatch": // atomic visibility: nothing before Write, everything after
+			nstr, _ := hx.Arg(toks, "n")
+			for _, n := range live {
+				if got[n] != "visible-before-write=0/3 after="+nstr {
+					fail("batch_atomic", "big-batch-split", "libs/db/bolt_db.go:boltBatch.Set", fmt.Sprintf("`%s` on %s -> %s: a part of the batch was visible before Write (or not everything after)", op, n, got[n]))
+				}
+			}
+			continue
+		case "memkeys":
+			var ks []string
+			for k := range r.m {
+				ks = append(ks, k)
+			}
+			sort.Strings(ks)
+			hs := make([]string, len(ks))
+			for j, k := range ks {
+				hs[j] = hx.Hex([]byte(k))
+			}
+			wantMem := fmt.Sprintf("len=%d keys=%s", len(ks), strings.Join(hs, ","))
+			for _, n := range live {
+				w := "n/a"
+				if n == "mem" {
+					w = wantMem
+				}
+				if got[n] != w {
+					fail("ordered_map_equiv", n+":memkeys"+suffix, "libs/db/mem_db.go:Keys", fmt.Sprintf("`%s` on %s: got %s, reference says %s", op, n, clipS(got[n], 150), clipS(w, 150)))
+				}
+			}
+			continue
+		case "dir":
+			for _, n := range live {
+				w := "match"
+				if n == "mem" || (r.hasPref && !under) {
+					w = "empty"
+				}
+				if got[n] != w {
+					fail("ordered_map_equiv", n+":dir", "libs/db", fmt.Sprintf("`%s` on %s: Dir() is %s, expected %s", op, n, got[n], w))
+				}
+			}
+			continue
+		case "bsize":
+			// laws that hold for every sensible byte/op counter: 0 for a batch without recorded ops, never decreasing while recording
+			for _, n := range live {
+				if got[n] == "nobatch" {
+					continue
+				}
+				var sz int
+				fmt.Sscan(got[n], &sz)
+				key := fmt.Sprintf("%s/%d", n, id())
+				if recorded[id()] == 0 && sz != 0 {
+					fail("batch_value_size", n+":valuesize-nonzero-empty", "libs/db", fmt.Sprintf("`%s` on %s: ValueSize() = %d for a batch with no recorded op", op, n, sz))
+				}
+				if prev, ok := lastSize[key]; ok && sz < prev {
+					fail("batch_value_size", n+":valuesize-decreases", "libs/db", fmt.Sprintf("`%s` on %s: ValueSize() went from %d to %d while recording", op, n, prev, sz))
+				}
+				lastSize[key] = sz
+				if findingValueSizeNotBytes && sz < valBytes[id()] {
+					fail("batch_value_size", "valuesize-below-queued-bytes", "libs/db/go_level_db.go:goLevelDBBatch.ValueSize", fmt.Sprintf("`%s` on %s: ValueSize() = %d but the Sets queued %d value bytes (libs/trie/database.go flushes when ValueSize() >= IdealBatchSize)", op, n, sz, valBytes[id()]))
+				}
+			}
+			continue
 		case "istep":
 			it, ok := iters[id()]
 			switch {
@@ -341,15 +479,26 @@ func (P) Monitor(c *hx.CaseRun) []hx.Failure {
 			want = "ok"
 		case "bnew":
 			r.batches[id()] = []bop{}
+			recorded[id()], valBytes[id()] = 0, 0
+			for _, n := range names {
+				delete(lastSize, fmt.Sprintf("%s/%d", n, id()))
+			}
 			want = "ok"
 		case "bset":
 			r.batches[id()] = append(r.batches[id()], bop{false, arg("k"), append([]byte{}, arg("v")...)})
+			recorded[id()]++
+			valBytes[id()] += len(arg("v"))
 			want = "ok"
 		case "bdel":
 			r.batches[id()] = append(r.batches[id()], bop{true, arg("k"), nil})
+			recorded[id()]++
 			want = "ok"
 		case "bwrite", "bwritesync", "bcommit":
 			lastWritten = r.batches[id()]
+			for _, n := range names {
+				delete(lastSize, fmt.Sprintf("%s/%d", n, id()))
+			}
+			recorded[id()] = 1 << 20 // what the batch still holds after Write is adapter-specific: no "empty" claim until Reset
 			for _, o := range r.batches[id()] {
 				if o.del {
 					delete(r.m, r.full(o.k, false))
@@ -360,6 +509,10 @@ func (P) Monitor(c *hx.CaseRun) []hx.Failure {
 			want = "ok"
 		case "breset":
 			r.batches[id()] = nil
+			recorded[id()], valBytes[id()] = 0, 0
+			for _, n := range names {
+				delete(lastSize, fmt.Sprintf("%s/%d", n, id()))
+			}
 			want = "ok"
 		case "bdrop":
 			delete(r.batches, id())
@@ -466,7 +619,9 @@ func (P) Monitor(c *hx.CaseRun) []hx.Failure {
 
 // knownClass: no recorded finding is open any more (all five were repaired in the repository); every failure
 // keeps its generic class <backend>:<op kind>.
-func knownClass(n, name string, under bool, toks []string, r *refState, got, want string) string { return "" }
+func knownClass(n, name string, under bool, toks []string, r *refState, got, want string) string {
+	return ""
+}
 
 var knownSites = map[string]string{}
 
@@ -507,6 +662,14 @@ func aliasedBatch(b []bop, got, want string) bool {
 	return n <= 1 && (n == 0 || inGot[last])
 }
 
+// open finding (proposed/C19-valuesize.md): ValueSize() is not the number of queued bytes on goleveldb (always 0), bolt and
+// badger (op counts); true = enforce "ValueSize() >= bytes of the queued values"
+const findingValueSizeNotBytes = false
+
+// open finding (proposed/C19-use-after-close-and-open-errors.md): NewGoLevelDB falls back to leveldb.RecoverFile on ANY open
+// error and comes up empty/partial without telling anybody
+const findingLdbSilentRecover = false
+
 func clipS(s string, n int) string {
 	if len(s) <= n {
 		return s
@@ -529,8 +692,10 @@ func opKind(name string) string {
 		return "write"
 	case "reopen":
 		return "reopen"
-	case "iopen", "istep", "iclose":
+	case "iopen", "istep", "iclose", "ivalid", "ikey", "ivalue", "inext":
 		return "stepwise-iter"
+	case "iseek", "idomain":
+		return "seek"
 	}
 	if strings.HasPrefix(name, "b") {
 		return "batch"
